@@ -118,6 +118,7 @@ class VariablePlayer(ConfigPlayer):
                 except IndexError:
                     self.warning_log("Failed to set player var %s for player %s. There are only %s players.",
                                      var, entry['player'] - 1, self.machine.game.num_players)
+                    return
             player.add_with_kwargs(var, value, source=context)
         elif entry['action'] == "set":
             assert self.machine.game is not None
@@ -131,6 +132,7 @@ class VariablePlayer(ConfigPlayer):
                 except IndexError:
                     self.warning_log("Failed to set player var %s for player %s. There are only %s players.",
                                      var, entry['player'] - 1, self.machine.game.num_players)
+                    return
             player.set_with_kwargs(var, value, source=context)
         elif entry['action'] == "add_machine":
             old_value = self.machine.variables.get_machine_var(var)
